@@ -58,7 +58,7 @@ func ruleC10a(c *Ctx) {
 			if !ok {
 				return
 			}
-			if cl := p.funcValue(df.Call.Value); cl != nil && callsRecover(cl) != nil {
+			if cl := deferredFunc(p, df); cl != nil && callsRecover(cl) != nil {
 				recDefers = append(recDefers, df)
 			}
 		})
@@ -94,7 +94,7 @@ func ruleC10a(c *Ctx) {
 			"every path with recovery enabled registers the defer before the selection; everything after the selection runs under it",
 			"with recovery enabled some path reaches route selection (and the chains after it) without the recover defer registered")
 		// the closure
-		cl := p.funcValue(df.Call.Value)
+		cl := deferredFunc(p, df)
 		rec := callsRecover(cl)
 		cfacts := factsAt(cl)
 		dyn := map[ssa.Instruction]bool{}
@@ -128,21 +128,45 @@ func ruleC10a(c *Ctx) {
 		if rec == nil {
 			continue
 		}
+		// every defer that runs this function (as a closure or as a named function) is guarded
 		guarded := false
-		for _, mc := range p.closureOf[fn] {
-			for _, r := range referrers(mc) {
-				if df, ok := r.(*ssa.Defer); ok {
-					for f := range factsAt(df.Parent())[df.Block()] {
-						if _, ok := fieldLoadIs(f.Cond, "Container", "doNotRecover"); ok && !f.Pol {
-							guarded = true
-						}
+		unguarded := false
+		for _, g := range p.Funcs {
+			eachInstr(g, func(i ssa.Instruction) {
+				df, ok := i.(*ssa.Defer)
+				if !ok || p.funcValue(df.Call.Value) != fn {
+					if !ok || df.Call.StaticCallee() != fn {
+						return
 					}
 				}
-			}
+				okG := false
+				for f := range factsAt(df.Parent())[df.Block()] {
+					if _, ok := fieldLoadIs(f.Cond, "Container", "doNotRecover"); ok && !f.Pol {
+						okG = true
+					}
+				}
+				if okG {
+					guarded = true
+				} else {
+					unguarded = true
+				}
+			})
 		}
+		guarded = guarded && !unguarded
 		c.check(guarded, p.fname(fn), "recover() only under !doNotRecover", p.ipos(rec), "the closure is only ever deferred on the false edge of doNotRecover",
 			"a recover() on the request path is not guarded by the DoNotRecover setting: with recovery off the panic no longer propagates unchanged")
 	}
+}
+
+// deferredFunc: the module function a defer statement runs (closure or named function).
+func deferredFunc(p *Program, df *ssa.Defer) *ssa.Function {
+	if f := p.funcValue(df.Call.Value); f != nil {
+		return f
+	}
+	if f := df.Call.StaticCallee(); f != nil && p.inModule(f) {
+		return f
+	}
+	return nil
 }
 
 func condRoot(v ssa.Value) ssa.Value {
@@ -181,7 +205,7 @@ func ruleC10b(c *Ctx) {
 		var recDefer *ssa.Defer
 		eachInstr(fn, func(i ssa.Instruction) {
 			if df, ok := i.(*ssa.Defer); ok {
-				if cl := p.funcValue(df.Call.Value); cl != nil && callsRecover(cl) != nil {
+				if cl := deferredFunc(p, df); cl != nil && callsRecover(cl) != nil {
 					recDefer = df
 				}
 			}
@@ -201,7 +225,7 @@ func ruleC10b(c *Ctx) {
 			c.note(name, "no encoder is installed in the dispatching function", "-", "the recover handler trivially writes to the only writer")
 			continue
 		}
-		cl := p.funcValue(recDefer.Call.Value)
+		cl := deferredFunc(p, recDefer)
 		eachInstr(cl, func(i ssa.Instruction) {
 			call, ok := i.(*ssa.Call)
 			if !ok || !isDynamicCall(&call.Call) {
@@ -210,7 +234,27 @@ func ruleC10b(c *Ctx) {
 			if _, ok := fieldLoadIs(call.Call.Value, "Container", "recoverHandleFunc"); !ok {
 				return
 			}
-			c.check(len(call.Call.Args) == 2 && p.isVar(call.Call.Args[1], site.Writer), p.fname(cl), "recover handler writes to the active writer", p.ipos(i),
+			warg := call.Call.Args[len(call.Call.Args)-1]
+			late := true
+			if prm, ok := strip(warg).(*ssa.Parameter); ok && cl.Parent() == nil {
+				// a named function deferred with arguments: they were evaluated when the defer statement ran
+				for k, q := range cl.Params {
+					if q == prm && k < len(recDefer.Call.Args) {
+						warg = recDefer.Call.Args[k]
+						// the writer variable must not be assigned after the defer statement
+						if site.Writer.Cell != nil {
+							for _, st := range p.cellStores(site.Writer.Cell) {
+								if st.Parent() == fn && canReach(recDefer, st) {
+									late = false
+								}
+							}
+						} else {
+							late = false
+						}
+					}
+				}
+			}
+			c.check(len(call.Call.Args) == 2 && p.isVar(warg, site.Writer) && late, p.fname(cl), "recover handler writes to the active writer", p.ipos(i),
 				"second argument is a load of "+site.Writer.String()+", the variable the install stores the compressing writer into",
 				"the recover handler is given a writer other than the active one: after an install its 500 body goes out raw under a Content-Encoding label")
 		})
